@@ -294,11 +294,244 @@ def poly_program(rng):
     return nodes
 
 
+# ------------------------------------------------------------------ witnesses of pinned (padded) types
+def padfree(t):
+    """no sum with branches of different width anywhere in t (Final::has_padding is false)"""
+    if t[0] == "u":
+        return True
+    if t[0] == "s":
+        return pg.width(t[1]) == pg.width(t[2]) and padfree(t[1]) and padfree(t[2])
+    return padfree(t[1]) and padfree(t[2])
+
+
+def prod_with_pad(t):
+    """t contains a product type that contains padding (the structural branch of Value::from_compact_bits)"""
+    if t[0] == "u":
+        return False
+    if t[0] == "p" and not padfree(t):
+        return True
+    return prod_with_pad(t[1]) or prod_with_pad(t[2])
+
+
+class PinBuilder(pg.Builder):
+    """Builder whose witness nodes are followed by a consumer that pins their target type: without it the
+    principal target of nearly every generated witness node is the unit type (269 witness nodes of a quick
+    run: 22 non-unit, none a product with padding).
+      pin(T) : T -> 1 has principal source exactly T:
+        pin(1) = unit;  pin(A + B) = comp (pair iden unit) (case (take pin A) (take pin B));
+        pin(A * B) = comp (pair (take pin A) (drop pin B)) unit;  optionally a jet `is_zero_N` for words
+      witness w : a -> T becomes  comp w (comp (pair iden (pin T)) (take iden))  : a -> T"""
+
+    def __init__(self, rng, opts=None, pin_pct=70, word_jets=None):
+        super().__init__(rng, opts)
+        self.pin_pct = pin_pct
+        self.pins = {}
+        self.word_jets = word_jets or {}     # n -> (fam, name) of a jet 2^(2^n) -> 2
+
+    def pin(self, t):
+        rng = self.rng
+        if t == pg.U:
+            return self.add(("unit",))          # never shared: its source is a free variable
+        if t in self.pins and rng.below(100) < 75:
+            return self.pins[t]
+        n = pg.as_word(t)
+        if n is not None and n in self.word_jets and rng.below(100) < 60:
+            j = self.add(("jet",) + self.word_jets[n])
+            u = self.add(("unit",))
+            r = self.add(("comp", j, u))
+        elif t[0] == "s":
+            pa = self.pin(t[1])
+            pb = self.pin(t[2])
+            ta = self.add(("take", pa))
+            tb = self.add(("take", pb))
+            cs = self.add(("case", ta, tb))
+            idn = self.add(("iden",))
+            un = self.add(("unit",))
+            pr = self.add(("pair", idn, un))
+            r = self.add(("comp", pr, cs))
+        else:
+            pa = self.pin(t[1])
+            pb = self.pin(t[2])
+            ta = self.add(("take", pa))
+            db = self.add(("drop", pb))
+            pr = self.add(("pair", ta, db))
+            un = self.add(("unit",))
+            r = self.add(("comp", pr, un))
+        self.pins[t] = r
+        return r
+
+    def pinned_witness(self, t):
+        """index of a term ? -> t: a fresh witness node whose target is pinned to t"""
+        w = self.add(("wit", None))
+        if t == pg.U:
+            return w
+        p = self.pin(t)
+        i1 = self.add(("iden",))
+        pr = self.add(("pair", i1, p))
+        i2 = self.add(("iden",))
+        tk = self.add(("take", i2))
+        c1 = self.add(("comp", pr, tk))
+        return self.add(("comp", w, c1))
+
+    def gen(self, a, b, depth):
+        i = super().gen(a, b, depth)
+        if i == len(self.nodes) - 1 and self.nodes[i] == ("wit", None) and b != pg.U and self.rng.below(100) < self.pin_pct:
+            self.nodes.pop()
+            return self.pinned_witness(b)
+        return i
+
+
+W = pg.word
+_PAD_TYPES = None
+
+
+def pad_types():
+    """witness types with padding inside products at several nesting depths and bit offsets"""
+    global _PAD_TYPES
+    if _PAD_TYPES is None:
+        U, S, P, BIT = pg.U, pg.S, pg.P, pg.BIT
+        o8 = S(U, W(3))
+        _PAD_TYPES = [
+            P(o8, W(3)), P(W(3), o8), P(o8, o8), P(S(W(3), U), W(3)),
+            P(S(U, BIT), BIT), P(BIT, S(U, BIT)), P(S(BIT, U), S(U, BIT)),
+            S(U, P(o8, W(3))), S(P(W(3), o8), U), S(P(S(U, BIT), W(2)), W(1)),
+            P(P(S(U, W(1)), W(1)), S(W(2), U)), P(W(1), P(S(U, W(2)), W(4))), P(P(W(2), S(W(1), U)), BIT),
+            P(S(U, P(S(U, BIT), BIT)), BIT), P(BIT, S(P(BIT, S(U, W(1))), U)),
+            P(S(U, P(S(U, P(S(U, BIT), BIT)), BIT)), W(1)),
+            P(U, S(U, BIT)), P(S(U, BIT), U), P(P(U, U), S(U, W(1))), P(S(U, U), S(U, W(1))),
+            P(S(W(1), W(3)), S(W(3), W(1))), P(S(S(U, BIT), W(2)), S(W(2), S(BIT, U))),
+            P(S(U, W(4)), W(3)), P(W(5), S(U, W(3))), P(S(U, W(3)), P(S(U, W(3)), S(U, W(3)))),
+            S(P(BIT, BIT), P(S(U, W(2)), BIT)), P(S(P(BIT, BIT), W(3)), S(U, P(BIT, W(1)))),
+        ]
+    return _PAD_TYPES
+
+
+def rand_pad_ty(rng, depth=4):
+    for _ in range(200):
+        t = pg.rand_ty(rng, depth)
+        if prod_with_pad(t) and pg.width(t) <= 96:
+            return t
+    return rng.choice(pad_types())
+
+
+def biased_value(rng, t, mode):
+    """mode 0 random, 1 all left (= zero value), 2 all right, 3 alternating by depth, 4 words all ones"""
+    def go(t, d):
+        if t[0] == "u":
+            return ("U",)
+        if t[0] == "s":
+            if mode == 0:
+                right = rng.below(2)
+            elif mode == 1:
+                right = 0
+            elif mode in (2, 4):
+                right = 1
+            else:
+                right = d % 2
+            if t[1] == pg.U and t[2] == pg.U and mode == 4:
+                right = 1
+            return ("R", go(t[2], d + 1)) if right else ("L", go(t[1], d + 1))
+        return ("P", go(t[1], d + 1), go(t[2], d + 1))
+    return go(t, 0)
+
+
+def wpad_structures(rng, tier, jets_c):
+    """programs 1 -> 1 whose witness nodes have pinned padded types:
+       shape 0  comp w pin;  shape 1  several witnesses in a pair tree;  shape 2  a shared witness used twice;
+       shape 3  witness of (A + B) * C consumed by a case whose branches pin the components"""
+    out = []
+    wj = {}
+    for j in jets_c:
+        for n in (3, 4, 5, 6):
+            if j[1] == "is_zero_%d" % (2 ** n) and j[2] == pg.word(n) and j[3] == pg.BIT:
+                wj[n] = ("c", j[1])
+    n_rand = 40 if tier == "quick" else 600
+    tys = list(pad_types()) + [rand_pad_ty(rng) for _ in range(n_rand)]
+    for k, t in enumerate(tys):
+        bld = PinBuilder(rng, None, word_jets=wj if k % 2 else None)
+        shape = k % 4 if k >= len(pad_types()) else 0
+        if shape == 0:
+            w = bld.pinned_witness(t)
+            u = bld.add(("unit",))
+            bld.add(("comp", w, u))
+        elif shape == 1:
+            t2 = rng.choice(tys)
+            t3 = rng.choice(tys)
+            w1, w2, w3 = bld.pinned_witness(t), bld.pinned_witness(t2), bld.pinned_witness(t3)
+            p1 = bld.add(("pair", w2, w3))
+            p2 = bld.add(("pair", w1, p1))
+            u = bld.add(("unit",))
+            bld.add(("comp", p2, u))
+        elif shape == 2:
+            w = bld.pinned_witness(t)
+            p1 = bld.add(("pair", w, w))
+            p2 = bld.add(("pair", p1, w))
+            u = bld.add(("unit",))
+            bld.add(("comp", p2, u))
+        else:
+            a, b, c = pg.rand_ty(rng, 1), rng.choice(tys), pg.rand_ty(rng, 1)
+            w = bld.add(("wit", None))
+            l2 = bld.add(("pair", bld.add(("take", bld.pin(a))), bld.add(("drop", bld.pin(c)))))
+            r2 = bld.add(("pair", bld.add(("take", bld.pin(b))), bld.add(("drop", bld.pin(c)))))
+            cs = bld.add(("case", l2, r2))
+            cm = bld.add(("comp", w, cs))
+            u = bld.add(("unit",))
+            bld.add(("comp", cm, u))
+        p = pg.compact_prog(bld.nodes)
+        if len(p) <= MAX_NODES:
+            out.append(("wpad", "r", "c", p))
+    return out
+
+
+# ------------------------------------------------------------------ explicit witness values (wspec of codec_wit.rs)
+def val_token(rng, v, t):
+    if t == pg.BIT and rng.below(2):
+        return "1" if v[0] == "R" else "0"
+    if t == pg.word(3) and rng.below(2):
+        bits = pg.compact_bits(v)
+        x = 0
+        for b in bits:
+            x = 2 * x + b
+        return "H%02x" % x
+    if v[0] == "U":
+        return "U"
+    if v[0] == "L":
+        return "L" + val_token(rng, v[1], t[1]) + pg.ty_pdl(t[2])
+    if v[0] == "R":
+        return "R" + pg.ty_pdl(t[1]) + val_token(rng, v[1], t[2])
+    return "P" + val_token(rng, v[1], t[1]) + val_token(rng, v[2], t[2])
+
+
+def val_dump(v):
+    if v[0] == "U":
+        return [0]
+    if v[0] == "L":
+        return [1] + val_dump(v[1])
+    if v[0] == "R":
+        return [2] + val_dump(v[1])
+    return [3] + val_dump(v[1]) + val_dump(v[2])
+
+
+def expected_obs(v, t):
+    return pg.ty_nums(t) + [99] + val_dump(v) + [98] + pg.compact_bits(v) + [97] + pg.padded_bits(t, v)
+
+
+def obs_text(o):
+    """human-readable form of a witness observation"""
+    try:
+        i99, i98, i97 = o.index(99), o.index(98), o.index(97)
+        t, _ = pg.ty_from_nums(o, 0)
+        return "type %s dump %s compact %s padded %s" % (pg.ty_str(t), "".join(str(x) for x in o[i99 + 1:i98]),
+                                                          pg.bstr(o[i98 + 1:i97]), pg.bstr(o[i97 + 1:]))
+    except Exception:
+        return str(o)
+
+
 # ------------------------------------------------------------------ generation
-def gen_root(rng, depth, opts):
+def gen_root(rng, depth, opts, pin=False):
     """a program 1 -> 1 whose root is a composition through a random middle type (plain `unit`/`iden` roots are
     covered by the fixed programs)"""
-    bld = pg.Builder(rng, opts)
+    bld = PinBuilder(rng, opts) if pin else pg.Builder(rng, opts)
     m = pg.rand_ty(rng, 2)
     x = bld.gen(pg.U, m, depth)
     y = bld.gen(m, pg.U, depth)
@@ -325,16 +558,20 @@ def gen_structures(rng, tier, jets_c, jets_e, n_rand=None, n_poly=None):
         jets = [(fam, j[1], j[2], j[3]) for j in rng.shuffle(pool)[:40]]
         opts = dict(share=rng.choice([0, 25, 50]), witness=rng.choice([5, 15, 30]), hidden=rng.choice([0, 25, 60]),
                     disconnect=rng.choice([0, 8, 20]), fail=rng.choice([0, 2]), jets=jets, word=20, comp=30)
+        mode = k % 4
+        if mode == 3:
+            opts["witness"] = rng.choice([30, 60])
         try:
-            p = gen_root(rng, rng.range(2, 6), opts)
+            p = gen_root(rng, rng.range(2, 6), opts, pin=(mode == 3))
         except RecursionError:
             continue
         if len(p) > MAX_NODES:
             continue
-        mode = k % 4
         if mode == 1:
             p = duplicate_some(rng, p, rng.range(1, 3))
             family = "dup"
+        elif mode == 3:
+            family = "pin"
         else:
             family = "rand"
         if len(p) > MAX_NODES:
@@ -347,6 +584,8 @@ def gen_structures(rng, tier, jets_c, jets_e, n_rand=None, n_poly=None):
         p = poly_program(rng)
         out.append(("poly", "r", "c", p))
         out.append(("poly", "c", "c", p))
+    if n_rand:
+        out += wpad_structures(rng, tier, jets_c)
     return out
 
 
@@ -418,17 +657,35 @@ def make_cases(rng, tier, binary, workdir, n_rand=None, n_poly=None, corpus=True
             continue
         if any(n[0] == "disc" and (n[2] is None) == (tm == "r") for n in p):
             continue   # redemption time needs every branch, commitment time has none
+        wspec = ""
+        wvals = {}
         if tm == "r":
-            q = pg.fill_witnesses(rng, p, ar, zero=rng.chance(1, 8))
+            if family in ("wpad", "pin"):
+                mode = rng.choice([0, 0, 0, 1, 2, 3, 4])
+                q = [("wit", ("c", pg.compact_bits(biased_value(rng, a[1], mode)))) if n == ("wit", None) and a is not None else n
+                     for n, a in zip(p, ar)]
+            else:
+                q = pg.fill_witnesses(rng, p, ar, zero=rng.chance(1, 8))
             if family == "dup":
                 q = equalise_witnesses(rng, q, ar)
+            # the intended value of every populated witness node as a typed tree (python reference decoder),
+            # handed to the harness as explicit constructor calls
+            ent = []
+            for j, (n, a) in enumerate(zip(q, ar)):
+                if n[0] == "wit" and n[1] is not None and a is not None:
+                    r_ = pg.of_compact(a[1], n[1][-1])
+                    if r_ is None or r_[1] != len(n[1][-1]):
+                        continue
+                    wvals[j] = r_[0]
+                    ent.append("%d=%s" % (j, val_token(rng, r_[0], a[1])))
+            wspec = " " + (";".join(ent) if ent else "-")
         else:
             q = p
         pdl = pg.prog_pdl(q)
-        meta = {"family": family, "time": tm, "fam": fam, "prog": q, "arrows": ar}
+        meta = {"family": family, "time": tm, "fam": fam, "prog": q, "arrows": ar, "wvals": wvals}
         if i in aliases:
             meta["hid_alias"] = aliases[i]
-        cases.append(Case("p%d" % i, "rt", "%s %s %s" % (tm, fam, pdl), None, meta))
+        cases.append(Case("p%d" % i, "rt", "%s %s %s%s" % (tm, fam, pdl, wspec), None, meta))
     return cases, rejected, jidx
 
 
@@ -462,6 +719,19 @@ def parse_result(r):
     d["dnodes"] = r[pos + 1:pos + 1 + ln]
     pos += 1 + ln
     d["c"] = r[pos] if pos < len(r) else 2
+    pos += 1
+    for nm in ("wobs_orig", "wobs_dec"):
+        if pos >= len(r):
+            d[nm] = None
+            continue
+        cnt = r[pos]
+        pos += 1
+        lst = []
+        for _ in range(cnt):
+            ln = r[pos]
+            lst.append(r[pos + 1:pos + 1 + ln])
+            pos += 1 + ln
+        d[nm] = lst
     return d
 
 
@@ -486,8 +756,36 @@ _JT = {}
 _JIDX = {}
 _TIER = ["quick"]
 # how many cases per generator family are also evaluated in the Coq model (all of them in the thorough tier)
-_MODEL_LIMIT = {"quick": {"rand": 170, "dup": 60, "poly": 12, "*": 10 ** 9},
-                "thorough": {"rand": 2200, "dup": 700, "poly": 100, "*": 10 ** 9}}
+_MODEL_LIMIT = {"quick": {"rand": 130, "dup": 60, "pin": 50, "wpad": 50, "poly": 12, "*": 10 ** 9},
+                "thorough": {"rand": 2200, "dup": 700, "pin": 700, "wpad": 700, "poly": 100, "*": 10 ** 9}}
+
+
+def witness_clause(m, d, order):
+    """witness clause, independent of the library's own witness decoder on the construction side: the intended
+    values are typed trees known to this reference; the harness built them from explicit constructors; the
+    bytes written are compared with the reference separately; every witness node of the original and of the
+    decoded program (yield order of the linearisation) must show the intended tree through the structural
+    accessors, the compact and the padded iterator.  Returns (failure | None, is_value_mismatch)."""
+    if m["time"] != "r" or d.get("wobs_dec") is None:
+        return None, False
+    exp = []
+    for i in order:
+        n = m["prog"][i]
+        if n[0] == "wit":
+            t = m["arrows"][i][1]
+            v = m["wvals"].get(i)
+            if v is None:
+                v = pg.zero_value(t)
+            exp.append(expected_obs(v, t))
+    for nm, cls, what in (("wobs_orig", "witness-constructed-differs", "built from explicit constructors"),
+                          ("wobs_dec", "witness-read-differs", "read back by RedeemNode::decode")):
+        got = d[nm]
+        if len(got) != len(exp):
+            return (cls, "%d witness nodes %s, %d expected" % (len(got), what, len(exp))), False
+        for k, (g, e) in enumerate(zip(got, exp)):
+            if g != e:
+                return (cls, "witness node #%d %s shows [%s], intended [%s]" % (k, what, obs_text(g), obs_text(e))), True
+    return None, False
 
 
 def prop_check(c, r):
@@ -506,6 +804,11 @@ def prop_check(c, r):
     coll = bool(d["coll"])
     if coll != ihr_collision(m):
         return ("sharing-key-reference", "identity-hash collision pattern: implementation %s, structural keys %s" % (coll, not coll))
+    jt = _JT[m["fam"]]
+    dn, _order = cc.linearise(m["prog"], m["arrows"], m["time"], _JIDX, alias=m.get("hid_alias"))
+    wfail, wvalue = witness_clause(m, d, _order)
+    if wvalue and not coll:
+        return wfail
     bad = [k for k in ("m_cmr", "m_ihr", "m_wit", "m_shape") if d[k]]
     if d["n_orig"] != d["n_dec"]:
         bad.append("node-count")
@@ -526,8 +829,6 @@ def prop_check(c, r):
         pending = ("amr-differs+ihr-equal-children-differ",
                    "identity-hash sharing merged two nodes with equal IHR and different children; decoded program differs in: %s" % ",".join(soft))
     # the independent reference: the bytes are the specified encoding of the linearised DAG
-    jt = _JT[m["fam"]]
-    dn, _order = cc.linearise(m["prog"], m["arrows"], m["time"], _JIDX, alias=m.get("hid_alias"))
     ref_p = cc.pack(cc.enc_prog(dn, jt))
     if ref_p != d["prog"]:
         return ("encoding-differs-from-reference", "program bytes %s differ from the reference encoding %s" % (cc.hexs(d["prog"]), cc.hexs(ref_p)))
@@ -536,6 +837,10 @@ def prop_check(c, r):
         return ("witness-differs-from-reference", "witness bytes %s differ from the reference %s" % (cc.hexs(d["wit"]), cc.hexs(ref_w)))
     if d["dnodes"] != cc.dnodes_nums(dn):
         return ("decoded-node-list", "the decoded DAG is not the node list that was written")
+    if wfail is not None and not coll:
+        # (with identity-hash-equal twins merged, the types below the merged node may change: finding F-C01;
+        # the witness bytes were compared with the reference above in any case)
+        return wfail
     # third party (Elements family, redemption time): libsimplicity decodes the same bytes to the same roots;
     # it refuses `fail` nodes by design (SIMPLICITY_ERR_FAIL_CODE)
     if d["c"] == 0:
